@@ -107,6 +107,21 @@ def default_compare(ia, ma):
         return 'implementation %r vs model %r' % (ia.raw[:200], ma.raw[:200])
     return None
 
+def hook_stream(seed, n):
+    """the first n bytes the verif-hooks generator hands out for a seed and an empty script (splitmix64, little endian);
+    HOOK_DEFAULT_SEED is the state a process starts with when install() was never called (the CLI binaries)"""
+    M = (1 << 64) - 1
+    sm = seed; out = bytearray()
+    while len(out) < n:
+        sm = (sm + 0x9E3779B97F4A7C15) & M
+        z = sm
+        z = ((z ^ (z >> 30)) * 0xBF58476D1CE4E5B9) & M
+        z = ((z ^ (z >> 27)) * 0x94D049BB133111EB) & M
+        z ^= z >> 31
+        out += z.to_bytes(8, 'little')
+    return list(out[:n])
+HOOK_DEFAULT_SEED = 0x9E3779B97F4A7C15
+
 # ---------------------------------------------------------------- builds
 
 class Lock:
